@@ -685,6 +685,11 @@ func runC16(c *Ctx) {
 	} else {
 		lifeUDPRace(c, 1500)
 	}
+	if c.Tier == "thorough" {
+		lifeHTTPLate(c, 40, 300)
+	} else {
+		lifeHTTPLate(c, 8, 300)
+	}
 	lifeMetricsInflight(c, 3)
 	if c.Tier == "thorough" {
 		lifeMetricsInflight(c, 35)
